@@ -22,14 +22,16 @@ RootOpts == {<<Rq("pa", 1, "reg"), Rq("pb", 2, "reg")>>, <<Rq("pa", 2, "reg"), R
              <<Rq("pb", 1, "reg"), Rq("pc", 4, "reg")>>} \cup (IF Family = "full" THEN {<<Rq("pa", 1, "reg"), Al("pc", 2, "pb")>>} ELSE {})
 UP(name, vs) == [name |-> name, versions |-> vs]
 UV(v, latest, depr, deps) == [v |-> v, latest |-> latest, dep |-> depr, deps |-> deps]
-Universes == {<< UP("pa", <<UV(4, FALSE, FALSE, a1), UV(9, FALSE, FALSE, a2)>>),
-                 UP("pb", <<UV(4, FALSE, FALSE, b1), UV(6, lat, FALSE, b6), UV(9, FALSE, FALSE, b9)>>),
-                 UP("pc", <<UV(4, FALSE, FALSE, c1), UV(9, FALSE, depr, c9)>>),
-                 UP("root", <<UV(4, FALSE, FALSE, rl)>>) >> :
-               rl \in RootOpts, a1 \in ({<<>>, <<Rq("pb", 2, "reg")>>} \cup (IF Family = "full" THEN {<<Rq("pb", 2, "reg"), Rq("pb", 4, "opt")>>} ELSE {})), a2 \in AOpts,
-               b1 \in (IF Family = "full" THEN {<<>>, <<Rq("pc", 4, "reg")>>} ELSE {<<>>}), b6 \in BOpts, b9 \in BOpts,
-               c1 \in {<<>>, <<Rq("pb", 4, "reg")>>}, c9 \in COpts, lat \in (IF Family = "full" THEN BOOLEAN ELSE {FALSE}), depr \in (IF Family = "full" THEN BOOLEAN ELSE {FALSE})}
-Init == \E u \in Universes : NRInit(u, [name |-> "root", v |-> 4])
+Univ(rl, a1, a2, b1, b6, b9, c1, c9, lat, depr) ==
+            << UP("pa", <<UV(4, FALSE, FALSE, a1), UV(9, FALSE, FALSE, a2)>>),
+               UP("pb", <<UV(4, FALSE, FALSE, b1), UV(6, lat, FALSE, b6), UV(9, FALSE, FALSE, b9)>>),
+               UP("pc", <<UV(4, FALSE, FALSE, c1), UV(9, FALSE, depr, c9)>>),
+               UP("root", <<UV(4, FALSE, FALSE, rl)>>) >>
+\* nested quantifiers, not one set of universes: TLC enumerates the initial states lazily
+Init == \E rl \in RootOpts, a1 \in ({<<>>, <<Rq("pb", 2, "reg")>>} \cup (IF Family = "full" THEN {<<Rq("pb", 2, "reg"), Rq("pb", 4, "opt")>>} ELSE {})), a2 \in AOpts,
+           b1 \in (IF Family = "full" THEN {<<>>, <<Rq("pc", 4, "reg")>>} ELSE {<<>>}), b6 \in BOpts, b9 \in BOpts,
+           c1 \in {<<>>, <<Rq("pb", 4, "reg")>>}, c9 \in COpts, lat \in (IF Family = "full" THEN BOOLEAN ELSE {FALSE}), depr \in (IF Family = "full" THEN BOOLEAN ELSE {FALSE}) :
+              NRInit(Univ(rl, a1, a2, b1, b6, b9, c1, c9, lat, depr), [name |-> "root", v |-> 4])
 Next == NRNext
 TreeOut == [x \in 1..Len(tree) |-> [gid |-> tree[x].gid, pgid |-> IF tree[x].parent = 0 THEN 0 ELSE tree[tree[x].parent].gid]]
 Emit == (phase \in {"done", "fatal"}) =>
